@@ -66,8 +66,8 @@ def main():
         if pid not in CHECKS and pid not in NA and pid not in PENDING:
             na.append(dict(property_id=pid, reason='check not built yet in this session (planned, see DESIGN.md section 4); nothing is claimed'))
     m = dict(version=1, setup_cmd='python3-vt /verif/lib/setup.py',
-             hooks=dict(guard='era_consensus_verif', enable='RUSTFLAGS="--cfg era_consensus_verif" (no hook is needed by the current checks: the MIR front end sees private items, Kani harnesses path-include the real files)',
-                        baseline_off_cmd='cd /repo/node && cargo test --workspace --no-fail-fast --offline', source_commits=[], add_only=True),
+             hooks=dict(guard='era_consensus_verif', enable='RUSTFLAGS="--cfg era_consensus_verif" — only the counterexample replays of the replica handlers are built with it (they drive the real StateMachine one step at a time through zksync_consensus_bft::verif_hooks); the deciding checks need no hook: the MIR front end sees private items, Kani harnesses path-include the real files',
+                        baseline_off_cmd='cd /repo/node && cargo test --workspace --no-fail-fast --offline', source_commits=['9cdb319ce1e35bc750f8b0db20dcc74b10c2fa25'], add_only=True),
              engines=[dict(name='mirsym', path='/verif/lib/mirsym', serves_properties=sorted(CHECKS), kind_free_text='symbolic execution of rustc MIR (dumped from /repo by /verif/mirdump via rustc_public on every run) with z3; cvc5 cross-check on final queries'),
                       dict(name='kani', path='/verif/kani', serves_properties=[], kind_free_text='Kani 0.68 / CBMC harness crates over the real source files')],
              checks=checks, not_applicable=sorted(na, key=lambda x: x['property_id']),
